@@ -1,0 +1,25 @@
+//go:build verif
+
+// Contracts for govc (see /verif/DESIGN.md). Comment-only; compiled only with -tags verif.
+
+package stringunescape
+
+//@ property C10 C07 C15
+
+//@ pure func validunescaper(e Unescaper) bool := len(e.escapableCharMap) == 256
+
+//@ func (e Unescaper) FindFirst(str string) int
+//@   ensures -1 <= result && result < len(str) && (result >= 0 ==> str[result] == e.escapeChar)
+//@   ensures forall i int :: 0 <= i && i < len(str) && (result == -1 || i < result) ==> str[i] != e.escapeChar
+
+// RunToBuffer: never writes more than len(src) bytes (every escape sequence shrinks or keeps its two bytes), copies the
+// text before the first escape character unchanged
+//@ func (e Unescaper) RunToBuffer(src string, first int, dst []byte) int
+//@   requires validunescaper(e) && 0 <= first && first < len(src) && src[first] == e.escapeChar && len(dst) >= len(src)
+//@   modifies dst[: len(src)]
+//@   ensures  first <= result && result <= len(src)
+//@   ensures[prefix-copied] forall i int :: 0 <= i && i < first ==> dst[i] == src[i]
+//@   loop 1: invariant first <= si && si <= len(src) && first <= di && di <= si && slimit == len(src) - 1 && (si < len(src) ==> src[si] == e.escapeChar)
+//@   loop 1: invariant forall i int :: 0 <= i && i < first ==> dst[i] == src[i]
+//@   loop 1: invariant forall p int :: off(dst) + di <= p && p < off(dst) + cap(dst) ==> at(dst, p) == old(at(dst, p))
+//@   loop 1: decreases len(src) - si
